@@ -404,7 +404,7 @@ func c03GateSwap(r *core.Run, rule string) {
 		var upd *ssa.MapUpdate
 		core.InstrsOf(fn, func(in ssa.Instruction) {
 			if mu, ok := in.(*ssa.MapUpdate); ok {
-				if _, _, isV := fieldLoadBy(mu.Map, isBinOpTokenMap); isV {
+				if isBinOpTokenMap(mu.Map.Type()) { // a field or a local: only the shape counts
 					upd = mu
 				}
 			}
@@ -562,7 +562,7 @@ func c03GateSwap(r *core.Run, rule string) {
 		both := false
 		for _, in := range sb.Instrs {
 			if mu, ok := in.(*ssa.MapUpdate); ok {
-				if _, _, isS := fieldLoadBy(mu.Map, isBlockBoolMap); isS {
+				if isBlockBoolMap(mu.Map.Type()) {
 					both = true
 				}
 			}
@@ -750,7 +750,7 @@ func c03GateHoist(r *core.Run) {
 		core.InstrsOf(fn, func(in ssa.Instruction) {
 			if mu, ok := in.(*ssa.MapUpdate); ok {
 				// the hoist mark: an instruction-set entry made for a *call*
-				if _, _, isH := fieldLoadBy(mu.Map, isInstrBoolMap); isH && strings.HasSuffix(core.Unwrap(mu.Key).Type().String(), "ssa.Call") {
+				if isInstrBoolMap(mu.Map.Type()) && strings.HasSuffix(core.Unwrap(mu.Key).Type().String(), "ssa.Call") {
 					upd = mu
 				}
 			}
